@@ -190,7 +190,9 @@ func (t *KernMethod) LockGovernTokens(ctx contract.KContext) (*contract.Response
 		return nil, fmt.Errorf("lock gov tokens failed, query account balance error")
 	}
 	amountLock := big.NewInt(0)
-	amountLock.SetString(string(amountBuf), 10)
+	if _, ok := amountLock.SetString(string(amountBuf), 10); !ok || amountLock.Sign() < 0 {
+		return nil, fmt.Errorf("lock gov tokens failed, amount invalid: %s", string(amountBuf))
+	}
 	// 比较account available balance amount
 	availableBalance := big.NewInt(0)
 	availableBalance.Sub(accountBalance.TotalBalance, accountBalance.LockedBalance[lockType])
@@ -239,11 +241,17 @@ func (t *KernMethod) UnLockGovernTokens(ctx contract.KContext) (*contract.Respon
 		return nil, fmt.Errorf("unlock gov tokens failed, query account balance error")
 	}
 	amountLock := big.NewInt(0)
-	amountLock.SetString(string(amountBuf), 10)
+	if _, ok := amountLock.SetString(string(amountBuf), 10); !ok || amountLock.Sign() < 0 {
+		return nil, fmt.Errorf("unlock gov tokens failed, amount invalid: %s", string(amountBuf))
+	}
 	// 解锁account balance amount
 	lockType := string(lockTypeBuf)
 	if lockType != utils.GovernTokenTypeOrdinary && lockType != utils.GovernTokenTypeTDPOS {
 		return nil, fmt.Errorf("unlock gov tokens failed, lock_type invalid: %s", lockType)
+	}
+	// never release more than is locked
+	if accountBalance.LockedBalance[lockType].Cmp(amountLock) < 0 {
+		return nil, fmt.Errorf("unlock gov tokens failed, amount %s exceeds the locked amount", amountLock.String())
 	}
 	accountBalance.LockedBalance[lockType] = accountBalance.LockedBalance[lockType].Sub(accountBalance.LockedBalance[lockType], amountLock)
 
